@@ -1,7 +1,9 @@
 """C03 — request paths are normalised once; unsafe paths never reach a handler."""
+import re
+
 from .lib_c01 import VALUE_PRESERVING, sources
-from .lib import (ITER_PLUMBING, PLUMBING, callee_allow, callers, closure_args_of_call, const_int, element_sources, http_error_ctors_on_error_path,
-                  lit_strs, operand_local, result_split, status_const_of_ctor)
+from .lib import (ITER_PLUMBING, PLUMBING, callee_allow, callers, http_error_ctors_on_error_path, operand_local, result_split, status_const_of_ctor)
+from .lib_c03 import DECODE, decode_region, element_origins, empties_dropped, entries_in, error_yields, feeds_output, membership_tests, output_unmodified, sinks, split_source
 
 LEVEL = "other"
 TECHNIQUE = "static analysis: MIR data-flow slices and path-sensitive guard facts over input_path_to_segments / lookup_route (decode-after-split chain, dot-segment guards on the decoded value, 400-before-lookup)"
@@ -18,37 +20,26 @@ EXPLANATION = ("Static rules over MIR facts extracted from /repo's current sourc
 TRUSTED = ["rustc nightly MIR construction + const evaluation", "mirfacts extractor", "rules/engine.py dominators, slices, bool_states_at",
            "percent_encoding::percent_decode_str / PercentDecode::decode_utf8", "core::str::split"]
 
-DECODE = r"percent_encoding::percent_decode"
 DECODE_UTF8 = r"PercentDecode.*decode_utf8$"
 OWNED = [r"string::ToString::to_string$", r"Cow::<'_, B>::into_owned$", r"borrow::ToOwned::to_owned$", r"Result::<T, E>::map_err$", r"convert::From::from$"]
 
 
 def _seg_fns(ctx, R):
+    """The decoding code: input_path_to_segments, its closures (helpers are inlined) and the `next` of every crate-local
+    iterator struct it builds (lib_c03.decode_region)."""
     top = ctx.need_fn(ctx.dsn, R, r"^router::input_path_to_segments$")
-    return top, [top] + ctx.dsn.descendants(top)
-
-
-def _sinks(f):
-    """Places where a finished segment leaves the decoding code: Ok(x) written to the return place of the
-    per-segment closure, or Vec::push(v, x) in the loop form."""
-    out = []
-    reach = f.reachable(0)
-    for b, i, st in f.aggregates(r"^std::result::Result$", "Ok"):
-        if st["pl"]["l"] == 0 and b in reach and f.local_ty(operand_local(st["rv"]["ops"][0]) or 0) in ("std::string::String", "alloc::string::String"):
-            out.append((b, st["rv"]["ops"][0], "Ok"))
-    for b, t in f.live_calls(r"vec::Vec::<T, A>::push$|VecDeque::<T, A>::push_back$"):
-        out.append((b, t["args"][1], "push"))
-    return out
+    fns, carriers = decode_region(ctx.dsn, top)
+    return top, fns, carriers
 
 
 def r1_decode_once(ctx):
     R = ctx.rule("C03.R1", "percent-decoding has exactly one call site on the request path; its argument is an element of str::split(path,'/') with empty elements "
                  "filtered out and nothing in between; the decoded value goes through decode_utf8 whose Err propagates; every segment handed on is that decoded value", floor=7)
-    top, fns = _seg_fns(ctx, R)
+    top, fns, carriers = _seg_fns(ctx, R)
     sites = callers(ctx.dsn, DECODE)
     inside = [(f, bb, t) for f, bb, t in sites if f in fns]
     ctx.check(R, "decode-sites-in-input_path_to_segments", len(inside) == 1,
-              "percent_decode* call sites inside input_path_to_segments: %d (want exactly 1: decode once)" % len(inside), top)
+              "percent_decode* call sites inside input_path_to_segments (its closures and the iterators it builds): %d (want exactly 1: decode once)" % len(inside), top)
     for f, bb, t in sites:
         if f not in fns:
             ctx.check(R, "decode-site-elsewhere:%s" % f.id, False, "percent-decoding outside input_path_to_segments (%s)" % t.get("callee"), (f, bb))
@@ -57,99 +48,97 @@ def r1_decode_once(ctx):
     f, bb, t = inside[0]
     arg = t["args"][0]
     sl = f.slice(arg)
-    bad = callee_allow(sl, PLUMBING + ITER_PLUMBING + [r"str::<impl str>::split$", r"iter::Iterator::filter$"])
-    ctx.check(R, "decode-arg-untransformed", not bad and not any(a[0] == "binop" for a in sl.atoms),
+    origins = element_origins(ctx.dsn, f, arg, bb)
+    # nothing is applied to the raw piece on its way to the decoder, in any function it crosses (closure captures included)
+    between = [r"str::<impl str>::split$", r"iter::Iterator::(filter|find)$"]
+    bad, binop = [], False
+    seen_lv = []
+    for o in origins or [{"levels": [{"fn": f, "piece": arg}]}]:
+        for lv in o["levels"]:
+            if any(lv["fn"] is g and lv["piece"] is p for g, p in seen_lv):
+                continue
+            seen_lv.append((lv["fn"], lv["piece"]))
+            ls = lv["fn"].slice(lv["piece"])
+            bad += callee_allow(ls, PLUMBING + ITER_PLUMBING + between)
+            binop = binop or any(a[0] == "binop" for a in ls.atoms)
+    ctx.check(R, "decode-arg-untransformed", not bad and not binop,
               "between the split element and percent_decode_str: %s" % ([b[0] for b in bad] or "no transformation"), (f, bb))
-    srcs = element_sources(ctx.dsn, f, arg)
-    ok_split = ok_path = ok_nodecode = False
-    filt = False
-    for g, it_op, how in srcs:
-        rs = g.slice(it_op)
-        for c, sbb, st in rs.calls(r"str::<impl str>::split$|str::<impl str>::split_terminator$"):
-            if const_int(st["args"][1]) == 47:
-                ok_split = True
-                ps = g.slice(st["args"][0])
-                if ps.params() == [1] and g is top and not callee_allow(ps, PLUMBING):
-                    ok_path = True
-        ok_nodecode = not rs.has_call(DECODE)
-        for c, fbb, ft in rs.calls(r"iter::Iterator::filter$"):
-            for h, node in closure_args_of_call(g, ft):
-                hs = h.slice({"l": 0, "p": []})
-                if hs.has_call(r"str::<impl str>::is_empty$") and ("unop", "Not") in hs.atoms:
-                    filt = True
-    ctx.check(R, "decoded-value-is-an-element-of-split(path,'/')", ok_split and ok_path and ok_nodecode,
-              "element source(s) %s: split on '/'=%s, of the path parameter itself=%s, no decoding before the split=%s" % ([h for _, _, h in srcs], ok_split, ok_path, ok_nodecode), (f, bb))
-    if not filt:
-        # loop form: the decode is reached only when is_empty(element) was false
-        atoms = []
-        for ebb, et in f.live_calls(r"str::<impl str>::is_empty$"):
-            es = f.slice(et["args"][0])
-            if set(b for _, b, _ in es.calls(r"iter::Iterator::next$")) & set(b for _, b, _ in sl.calls(r"iter::Iterator::next$")) or (es.params() and es.params() == sl.params()):
-                atoms.append(("call", ebb))
-        filt = bool(atoms) and f.guarded_by(bb, atoms_false=atoms)[0]
-    ctx.check(R, "empty-segments-filtered", filt, "empty elements are dropped before decoding (filter(!is_empty) or an is_empty guard on the same element): %s" % filt, (f, bb))
+    ok_split = ok_path = ok_out = False
+    ok_nodecode = bool(origins)
+    filt = None
+    for o in origins:
+        ss = split_source(ctx.dsn, top, o, carriers)
+        ok_split = ok_split or ss["split"]
+        ok_path = ok_path or ss["path"]
+        ok_nodecode = ok_nodecode and ss["nodecode"]
+        if ss["split"] and ss["path"]:
+            ok_out = ok_out or feeds_output(top, o, carriers, ss["carrier"])
+            filt = filt or empties_dropped(ctx.dsn, o)
+    ctx.check(R, "decoded-value-is-an-element-of-split(path,'/')", ok_split and ok_path and ok_nodecode and ok_out,
+              "element source(s) %s: split on '/'=%s, of the path parameter itself=%s, no decoding before the split=%s, that iterator is what input_path_to_segments collects=%s"
+              % (sorted(set(o["how"] for o in origins)), ok_split, ok_path, ok_nodecode, ok_out), (f, bb))
+    ctx.check(R, "empty-segments-filtered", bool(filt),
+              "empty elements are dropped before decoding (filter / find with a !is_empty predicate, `(!is_empty).then(..)`, or an is_empty guard on the same element): %s" % (filt or False), (f, bb))
+    ok_seq, extra = output_unmodified(ctx.dsn, top, origins)
+    ctx.check(R, "collected-items-are-the-step-results", ok_seq,
+              "on the way from the split to input_path_to_segments' return value only element-wise adaptors and the step / !is_empty closures are applied: %s" % (extra or "nothing else"), top)
     du = f.live_calls(DECODE_UTF8)
     ok = len(du) == 1 and f.slice(du[0][1]["args"][0]).has_call(r"percent_decode_str")
     ctx.check(R, "decode_utf8-on-decoded", ok, "decode_utf8 call sites fed by percent_decode_str: %d" % len(du), f)
-    sinks = _sinks(f)
+    sks = sinks(f)
     if ok:
         sp = result_split(f, du[0][1]["dest"]["l"])
         if sp is None:
             ctx.check(R, "utf8-error-propagates", False, "the Result of decode_utf8 is never split into Ok/Err (error ignored?)", (f, du[0][0]))
         else:
-            err_reach = f.reachable(sp["err"])
-            leaked = [b for b, op, k in sinks if b in err_reach and b not in f.reachable(sp["ok"], avoid=[sp["err"]]) or (b in err_reach and not f.loop_blocks())]
-            # in a loop the error edge must leave the function (return) without reaching another sink in the same iteration
-            direct = [b for b, op, k in sinks if b in f.reachable(sp["err"], avoid=[du[0][0]])]
-            ctx.check(R, "utf8-error-propagates", not direct, "decode_utf8's Err case (%s) reaches no segment sink: %s" % ("/".join(sp["via"]), not direct), (f, sp["switch_bb"]))
-    if not sinks:
+            # the error edge must leave the step (return) without reaching a sink (in a loop: in the same iteration)
+            direct = [b for b, op, k in sks if b in f.reachable(sp["err"], avoid=[du[0][0]])]
+            yields = f.must_pass(error_yields(f), start=sp["err"])
+            ctx.check(R, "utf8-error-propagates", not direct and yields, "decode_utf8's Err case (%s) reaches no segment sink: %s; every way out of it yields an Err (not a dropped element): %s"
+                      % ("/".join(sp["via"]), not direct, yields), (f, sp["switch_bb"]))
+    if not sks:
         ctx.lost(R, "segment sink (Ok(segment) / push(segment)) in the decoding code")
-    for b, op, kind in sinks:
+    for b, op, kind in sks:
         s4 = f.slice(op)
-        bad4 = callee_allow(s4, PLUMBING + ITER_PLUMBING + OWNED + [r"percent_decode_str$", r"decode_utf8$", r"str::<impl str>::split$", r"iter::Iterator::filter$"])
+        bad4 = callee_allow(s4, PLUMBING + ITER_PLUMBING + OWNED + [r"percent_decode_str$", r"decode_utf8$"] + between)
         ctx.check(R, "segment-is-the-decoded-value:%s" % kind, s4.has_call(r"decode_utf8") and not bad4,
                   "%s(segment): slice contains decode_utf8=%s, other callees=%s" % (kind, s4.has_call(r"decode_utf8"), [x[0] for x in bad4]), (f, b))
 
 
 def r2_dot_segments(ctx):
     R = ctx.rule("C03.R2", "every segment handed on is reached only on paths where the *decoded* value compared different from \".\" and from \"..\"", floor=2)
-    top, fns = _seg_fns(ctx, R)
-    found = {".": [], "..": []}
+    top, fns, carriers = _seg_fns(ctx, R)
+    tests = []
     for f in fns:
-        for bb, t in f.live_calls(r"cmp::PartialEq::(eq|ne)$"):
-            if len(t["args"]) != 2:
-                continue
-            sa, sb = f.slice(t["args"][0]), f.slice(t["args"][1])
-            for lit_side, val_side in ((sa, sb), (sb, sa)):
-                ls = lit_strs(lit_side)
-                for dot in (".", ".."):
-                    if ls == {dot}:
-                        found[dot].append((f, bb, t, val_side))
+        tests += membership_tests(ctx.dsn, f)
+    for tst in tests:
+        for name in tst["unknown"]:
+            ctx.check(R, "table-contents-known:%s" % name, False, "a value is looked up in the constant table %s whose evaluated contents are not in the extracted facts "
+                      "(the extractor renders scalar and string constants only), so it cannot be decided whether the table holds \".\" and \"..\"" % name, (tst["fn"], tst["bb"]))
     for dot in (".", ".."):
-        if not found[dot]:
+        have = [x for x in tests if dot in x["strs"]]
+        if not have:
             ctx.lost(R, "comparison with the constant %r in input_path_to_segments" % dot)
             continue
-        dec = [(f, bb) for f, bb, t, vs in found[dot] if vs.has_call(r"decode_utf8")]
-        f0, bb0 = (dec or [(found[dot][0][0], found[dot][0][1])])[0]
+        dec = [x for x in have if x["val"].has_call(r"decode_utf8")]
+        x0 = (dec or have)[0]
         ctx.check(R, "dot-test-on-decoded:%r" % dot, bool(dec),
-                  "%d comparison(s) with %r, %d of them on a value derived from the decode_utf8 result (a test on the raw text only lets the percent-encoded spelling %s through)"
-                  % (len(found[dot]), dot, len(dec), "%2e" * len(dot)), (f0, bb0))
+                  "%d test(s) against %r (%s), %d of them on a value derived from the decode_utf8 result (a test on the raw text only lets the percent-encoded spelling %s through)"
+                  % (len(have), dot, "; ".join(sorted(set(x["what"] for x in have))), len(dec), "%2e" * len(dot)), (x0["fn"], x0["bb"]))
     n = 0
     for f in fns:
-        for b, op, kind in _sinks(f):
+        for b, op, kind in sinks(f):
             s4 = f.slice(op)
             if not s4.has_call(r"decode_utf8|percent_decode"):
                 continue
             n += 1
             for dot in (".", ".."):
                 guarded = False
-                why = "no comparison of the decoded value with %r in this function" % dot
-                for g, bb, t, vs in found[dot]:
-                    if g is not f or not vs.has_call(r"decode_utf8"):
+                why = "no test of the decoded value against %r in this function" % dot
+                for x in tests:
+                    if x["fn"] is not f or dot not in x["strs"] or not x["val"].has_call(r"decode_utf8"):
                         continue
-                    atom = ("call", bb)
-                    is_eq = t["callee"].endswith("::eq")
-                    ok, cex = f.guarded_by_all(b, atoms_false=[atom] if is_eq else [], atoms_true=[] if is_eq else [atom])
+                    ok, cex = f.guarded_by_all(b, atoms_false=[x["atom"]] if x["in_when"] else [], atoms_true=[] if x["in_when"] else [x["atom"]])
                     if ok:
                         guarded = True
                     else:
@@ -158,6 +147,11 @@ def r2_dot_segments(ctx):
                           "%s(decoded segment) %s" % (kind, "is reached only when decoded != %r" % dot if guarded else "— " + why), (f, b))
     if n == 0:
         ctx.lost(R, "a sink of decoded segments")
+
+
+# ways of walking the validated Vec<String>: an iterator over it, or a slice of it used as a cursor (is_empty / split_first / index / range)
+WALKERS = (r"iter::IntoIterator::into_iter$|slice::<impl \[T\]>::iter$|vec::Vec::<T, A>::(into_iter|iter|drain|as_slice)$|vec::IntoIter|"
+           r"slice::<impl \[T\]>::(split_first|first|get|is_empty|len)$|ops::Index::index$|ops::Deref::deref$")
 
 
 def r3_400_before_lookup(ctx):
@@ -182,24 +176,48 @@ def r3_400_before_lookup(ctx):
     st = status_const_of_ctor(ctx.dsn, "for_bad_request")
     ctx.check(R, "segment-error-is-400", ctors == {"error::HttpError::for_bad_request"} and st == {400},
               "error constructors on the segment-error path: %s; status constants in for_bad_request=%s" % (sorted(ctors) or "none", sorted(st or [])), (lr, sp["switch_bb"]))
-    sites = lr.live_calls(r"^router::find_handler_matching_version$") + lr.live_calls(r"iter::Iterator::any$")
-    if not lr.live_calls(r"^router::find_handler_matching_version$"):
-        ctx.lost(R, "handler selection (find_handler_matching_version) in lookup_route")
-    for sbb, stt in sites:
-        dom = lr.edge_dominates(sp["switch_bb"], sp["ok"], sbb)
+    # every handler selection of the crate — in lookup_route, in its closures, or in a helper that holds the second half of the
+    # lookup (too large to be inlined) — is reached from lookup_route only, through blocks on the Ok side of the segment result
+    sel = [(f, sbb, stt) for f, sbb, stt in callers(ctx.dsn, r"^router::find_handler_matching_version$")]
+    sel += [(lr, sbb, stt) for sbb, stt in lr.live_calls(r"iter::Iterator::any$")]
+    if not [x for x in sel if x[2]["callee"].endswith("find_handler_matching_version")]:
+        ctx.lost(R, "handler selection (find_handler_matching_version) reached from lookup_route")
+    err_side = lr.reachable(sp["err"], avoid=[sp["ok"]])
+    on_err = False
+    for f, sbb, stt in sel:
+        ent = entries_in(ctx.dsn, lr, f, sbb)
+        dom = ent is not None and all(lr.edge_dominates(sp["switch_bb"], sp["ok"], e) for e in ent)
+        on_err = on_err or ent is None or any(e in err_side for e in ent)
+        where = "" if f is lr else " (in %s, entered from lookup_route at %s)" % (f.id, "an unknown caller" if ent is None else "%d site(s)" % len(ent))
         ctx.check(R, "400-edge-dominates-selection:%s" % (stt["callee"].split("::")[-1]), dom,
-                  "handler selection is%s dominated by the Ok case of the segment result" % ("" if dom else " NOT"), (lr, sbb))
-    reach = lr.reachable(sp["err"]) - lr.reachable(sp["ok"]) if sp["ok"] in lr.reachable(sp["err"]) else lr.reachable(sp["err"])
-    ctx.check(R, "error-edge-selects-nothing", not any(sbb in lr.reachable(sp["err"], avoid=[sp["ok"]]) for sbb, _ in sites),
-              "the Err case of the segment result reaches no handler selection", (lr, sp["switch_bb"]))
-    # the segments walked are the Ok payload (not a re-parse of the path)
-    okw = False
-    consumers = lr.live_calls(r"iter::IntoIterator::into_iter$|slice::<impl \[T\]>::iter$|vec::Vec::<T, A>::(into_iter|iter|drain)$|vec::IntoIter")
-    for wbb, wt in consumers:
-        srcs = sources(lr, wt["args"][0], VALUE_PRESERVING + [r"ops::Try::branch$"])
+                  "handler selection%s is%s dominated by the Ok case of the segment result" % (where, "" if dom else " NOT"), (f, sbb))
+    ctx.check(R, "error-edge-selects-nothing", not on_err, "the Err case of the segment result reaches no handler selection", (lr, sp["switch_bb"]))
+    # the segments walked are the Ok payload (not a re-parse of the path): some walker is built from the payload, every walker of a
+    # Vec<String>/[String] in lookup_route is, and the path parameter goes nowhere but into input_path_to_segments
+    okw, other = False, []
+    for wbb, wt in lr.live_calls(WALKERS):
+        if not wt["args"]:
+            continue
+        srcs = sources(lr, wt["args"][0], VALUE_PRESERVING + [r"ops::Try::branch$", r"vec::Vec::<T, A>::as_slice$"])
         if srcs and all(p.is_call(r"^router::input_path_to_segments$") and p.npath() == ["+", "0"] for p in srcs):
             okw = True
-    ctx.check(R, "walk-consumes-validated-segments", okw, "the segment iterator walked by lookup_route is built from input_path_to_segments' Ok payload unmodified: %s" % okw, lr)
+    reparse = ps_forward_calls(lr, t, path_params)
+    ctx.check(R, "walk-consumes-validated-segments", okw and not reparse,
+              "the segments walked by lookup_route (iterator or slice cursor) are input_path_to_segments' Ok payload unmodified: %s; other uses of the path parameter: %s" % (okw, reparse or "none"), lr)
+
+
+def ps_forward_calls(lr, seg_call, path_params):
+    """Callees (other than input_path_to_segments and value-preserving plumbing) that receive a value derived from lookup_route's
+    path parameter without it having gone through input_path_to_segments: a second parse of the raw path."""
+    out = set()
+    for bb, t in lr.live_calls():
+        c = t.get("callee") or "<indirect>"
+        if t is seg_call or any(re.search(p, c) for p in PLUMBING):
+            continue
+        for a in t["args"]:
+            if a.get("k") in ("copy", "move") and set(lr.slice(a, stop_at_calls=r"^router::input_path_to_segments$").params()) & set(path_params):
+                out.add(c)
+    return sorted(out)
 
 
 RULES = [("C03.R1", r1_decode_once), ("C03.R2", r2_dot_segments), ("C03.R3", r3_400_before_lookup)]
